@@ -138,9 +138,9 @@ def rand_control(rnd, pnames):
         a["text"] = rnd.choice(["trig v(x) val=0.5 rise=1 targ v(y) val=0.5 rise=1", "max v(out)"])
         a["text2"] = rnd.choice(["tran", "dc", "ac"])
     elif k == "include":
-        a["text"] = rnd.choice(["/models/all.sp", "rel/inc.scs", "/with space/x.sp"])
+        a["text"] = rnd.choice(["/models/all.sp", "rel/inc.scs", "/with space/x.sp", "models/../corners/tt.sp", "../up/inc.scs"])
     elif k == "lib":
-        a["text"], a["text2"] = rnd.choice(["/pdk/lib.sp", "l.lib"]), rnd.choice(["tt", "ff_hot"])
+        a["text"], a["text2"] = rnd.choice(["/pdk/lib.sp", "l.lib", "/pdk/models/../corners/all.lib", "../../l.lib"]), rnd.choice(["tt", "ff_hot"])
     elif k == "param":
         a["name"], a["hasname"] = "p" + str(len(pnames)), True
         pnames.append(a["name"])
